@@ -33,7 +33,11 @@ RULE = ("random circuits of 1-4 persistent-capable blocks (Input, Counter, Timer
         "the timer-family circuits with >= 2 blocks one or two Input/Counter blocks send their output as a 'put' "
         "event (plain, EventCond('put', None), EventCond(None, 'put'), EventCond(None, None)) to another persistent "
         "block created before or after them, with falsy and truthy initial/restored values and valid entries of "
-        "both in the initial storage; compared with the Lean "
+        "both in the initial storage; in 30 % of the timer-family circuits the STORAGE FAILS (a mapping whose "
+        "__setitem__, pop/__delitem__, keys()/iteration and __getitem__ of chosen keys raise OSError / RuntimeError / an "
+        "application exception on demand): reads of block entries and of the stop time, keys() and the purge at the "
+        "start of the first or of a restarted circuit, writes (and the pop that removes the stale entry) during a "
+        "stretch of events and timer firings, at the saves and the stop-time write of the stop; compared with the Lean "
         "model line by line: result of every event, every block's persistent flag/state/output/sdata/absolute "
         "timer expiry/entry-action log, persistent_ts and the canonicalised storage; a case is distinct by its "
         "(lines, trace) hash and non-trivial when it has at least one storage-changing event and one restart")
@@ -56,6 +60,12 @@ ASSUMPTIONS = [
     "Input/Counter to a block without on_output of its own, followed during the start-up only; no event changes "
     "the output of a source block at run time (not modelled); the sync save is modelled with the repair "
     "patches/C06-sync-save-on-uninitialized.diff",
+    "storage faults raise exception classes other than KeyError / TypeError (those two mean 'missing' / 'invalid' to "
+    "the code); a start on a failing storage is generated for link-free circuits with working writes only; a stop on a "
+    "failing storage for circuits without the slow clean-up block; a failing pop/del at the start only when the "
+    "initialisation cannot fail; what the code does when the unprotected operations "
+    "fail (pop inside the save's handler, the stop-time write, _check_persistent_data) is modelled as it is and "
+    "compared, not judged by the oracle",
     "reading of 'nothing is written if start-up failed' = abort before the start or a failing start() "
     "(DESIGN.md 6); a failing initialisation rewrites the entries and is compared with the model only",
 ]
@@ -70,11 +80,59 @@ STOPKEY = 'edzed-stop-time'
 
 # ----------------------------------------------------------------------------- storage
 
+class StorageFault(Exception):
+    """an application-defined error of the storage back-end"""
+
+
+FAULT_EXC = {'OSError': OSError, 'RuntimeError': RuntimeError, 'StorageFault': StorageFault}
+NO_FAULTS = {'w': False, 'd': False, 'i': False, 'r': ()}
+
+
 class Storage(vtime.Storage):
-    """value semantics in both directions"""
+    """value semantics in both directions; its operations raise on demand (the FAULT MODEL of the storage):
+    faults['w'] __setitem__, ['d'] pop / __delitem__, ['i'] keys() / iteration, ['r'] __getitem__ of the listed keys"""
+
+    def __init__(self, *args):
+        super().__init__(*args)
+        self.faults = dict(NO_FAULTS)
+        self.exc = OSError
+
+    def boom(self, what):
+        raise self.exc(f'storage fault: {what}')
 
     def __getitem__(self, key):
+        if key in self.faults['r']:
+            self.boom('read')
         return copy.deepcopy(super().__getitem__(key))
+
+    def __setitem__(self, key, value):
+        if self.faults['w']:
+            self.boom('write')
+        super().__setitem__(key, value)
+
+    def pop(self, key, *default):
+        if self.faults['d']:
+            self.boom('pop')
+        return super().pop(key, *default)
+
+    def __delitem__(self, key):
+        if self.faults['d']:
+            self.boom('del')
+        super().__delitem__(key)
+
+    def keys(self):
+        if self.faults['i']:
+            self.boom('keys')
+        return super().keys()
+
+    def __iter__(self):
+        if self.faults['i']:
+            self.boom('iter')
+        return super().__iter__()
+
+    def raw(self):
+        """the content, read behind the back of the fault injection"""
+        return {k: dict.__getitem__(self, k) for k in dict.keys(self)}
 
 
 def cjson(cfg):
@@ -313,6 +371,7 @@ class Life:
         self.cleanup = False     # the asynchronous clean-up is in progress
         self.started_ok = False
         self.cleanup_finished = False
+        self.faults_now = {}     # the storage operations that raise at the moment ({} = none)
         self.restored_from = {}  # block name -> the saved state `_restore_state` accepted
         self.init_events = []    # (block name, event type, value) of events sent by other blocks during the start-up
         self.t_begin = None      # instant the stop began (when it can be observed)
@@ -381,11 +440,12 @@ class Life:
             parts.append(f"P{int(blk.persistent)}:I{int(inited)}:v={v}:o={enc(blk.output)}:s={s}:t={t}:d={d}:e={e}"
                          f":r={int(spec['name'] in self.restored_from)}")
         return (f"ph={ph} ts={'n' if not isinstance(ts, float) else us_of(ts)} B " + ' '.join(parts)
-                + ' S ' + enc_store(self.store))
+                + ' S ' + enc_store(self.store.raw()))
 
     def snap(self, label, **extra):
-        self.snaps.append({'label': label, 't': self.world.now_us(), 'store': copy.deepcopy(dict(self.store)),
-                           'obs': self.obs(), 'in_cleanup': self.cleanup, **extra})
+        self.snaps.append({'label': label, 't': self.world.now_us(), 'store': copy.deepcopy(self.store.raw()),
+                           'obs': self.obs(), 'in_cleanup': self.cleanup, 'faults': dict(self.faults_now),
+                           'ready': bool(self.circuit.is_ready()), **extra})
 
     def cal_table(self, configs):
         if self.family == 'a':
@@ -421,8 +481,8 @@ class Life:
             self.lines.append(f"persist blk {hexs(key_of(spec))} {int(spec['p'])} {int(spec['s'])} "
                               f"{'n' if exp is None else exp} {lk} {enc_kind(spec)}")
             self.trace.append('ok')
-        self.lines.append('persist store ' + enc_store(self.store))
-        self.trace.append('ok ' + enc_store(self.store))
+        self.lines.append('persist store ' + enc_store(self.store.raw()))
+        self.trace.append('ok ' + enc_store(self.store.raw()))
 
     def wrap(self, idx, blk):
         orig = blk.event
@@ -441,6 +501,11 @@ class Life:
                 self.init_events.append((name, str(etype), data.get('value')))
             if self.in_call:
                 return orig(etype, **data)
+            st = self.circuit._simtask
+            if st is not None and st.done():
+                # the simulation task has ended without stopping the blocks (a stop that raised on a failing
+                # storage): the life of the circuit is over, timers left behind are not followed
+                return None
             # an event that does not come from the harness: a timer
             self.in_call = True
             before = len(self.snaps) - 1
@@ -463,7 +528,18 @@ class Life:
                 self.snap('fire', blk=idx, res=res)
         blk.event = wrapper
 
+    def set_faults(self, spec):
+        spec = {k: v for k, v in (spec or {}).items() if v}
+        keys = [STOPKEY if r == 'stamp' else key_of(self.specs[r]) for r in spec.get('r', []) if r == 'stamp' or r < len(self.specs)]
+        self.store.faults = {'w': bool(spec.get('w')), 'd': bool(spec.get('d')), 'i': bool(spec.get('i')), 'r': tuple(keys)}
+        self.faults_now = spec
+        self.lines.append(f"persist fault {int(bool(spec.get('w')))} {int(bool(spec.get('d')))} {int(bool(spec.get('i')))} "
+                          + ('&'.join(hexs(k) for k in keys) or '-'))
+        self.trace.append('ok')
+
     def classify(self, err, err0):
+        if isinstance(err, self.store.exc) and str(err).startswith('storage fault'):
+            return 'err StorageError'          # (comes out of the sync save, after the handler has returned)
         if self.circuit.error is not None and err0 is None:
             return 'err Abort'
         if isinstance(err, edzed.EdzedUnknownEvent):
@@ -482,7 +558,7 @@ class Life:
         if not self.started_ok or self.cleanup:
             return
         self.cleanup = True
-        stamp = self.store.get(STOPKEY) if STOPKEY in self.store else None
+        stamp = self.store.raw().get(STOPKEY)
         now = self.world.now_us()
         self.t_begin = now if self.family == 'a' else (us_of(stamp) if isinstance(stamp, float) else now)
         self.lines.append(f'persist stopbegin {self.t_begin}')
@@ -490,7 +566,8 @@ class Life:
         self.snap('stopbegin', t_begin=self.t_begin, t_hook=now)
         self.in_call = False         # timers go on firing during the clean-up
 
-    def run(self, t0, mode, failer_first, ops, t_stop, configs, slow=None, stop=None):
+    def run(self, t0, mode, failer_first, ops, t_stop, configs, slow=None, stop=None, start_fault=None,
+            stop_fault=None):
         """whole life; returns nothing, fills lines/trace/snaps"""
         self.slow = slow
         stop = stop or {'kind': 'full'}
@@ -507,7 +584,15 @@ class Life:
             start_cal = self.cal
             if mode == 'aborted':
                 c.abort(RuntimeError('abort before start'))
+            if start_fault:
+                self.set_faults(start_fault)
             simtask = asyncio.create_task(c.run_forever())
+            self.done_render = None
+
+            def sim_done(_task):
+                # (the state at the instant the simulation task ended: timers it left behind are still pending)
+                self.done_render, self.done_time = self.render(), self.world.now_us()
+            simtask.add_done_callback(sim_done)
             init_err = None
             try:
                 await c.wait_init()
@@ -516,21 +601,29 @@ class Life:
             mname = {'ok': 'ok', 'aborted': 'aborted', 'raises': 'raises'}[mode]
             if init_err is not None or not c.is_ready():
                 await asyncio.wait([simtask])
-                stamp = self.store.get(STOPKEY) if STOPKEY in self.store else None
+                stamp = self.store.raw().get(STOPKEY)
                 tstop = us_of(stamp) if isinstance(stamp, float) and self.family == 'b' else self.world.now_us()
                 self.lines.append(f'persist startstop {start_now} {mname} {start_cal} {tstop}')
                 self.trace.append(self.render())
-                self.snap('failed-start' if mode != 'ok' else 'failed-init', mode=mode)
+                self.snap('failed-start' if mode != 'ok' else 'failed-init', mode=mode,
+                          start_error=type(simtask.exception()).__name__ if simtask.done() and not simtask.cancelled()
+                          and simtask.exception() is not None else None)
+                self.store.faults = dict(NO_FAULTS)
                 return
             self.lines.append(f'persist start {start_now} {mname} {start_cal}')
             self.trace.append(self.render())
             self.snap('init')
+            if start_fault:
+                self.set_faults({})
             self.started_ok = True
             self.in_call = False
             stopped = False
             for op in ops:
                 if self.circuit.error is not None and op[0] != 'ev':
                     break
+                if op[0] == 'fault':
+                    self.set_faults(op[1])
+                    continue
                 if op[0] == 'adv':
                     target = op[1] - self.world.wall_us + self.world.loop_base
                     if target < loop.now_us:
@@ -558,6 +651,8 @@ class Life:
             if self.circuit.error is None:
                 t_before = self.world.now_us()
                 regular = True
+                if stop_fault and self.slow is None:
+                    self.set_faults(stop_fault)
                 if self.slow is None:
                     try:
                         await c.shutdown()
@@ -586,7 +681,18 @@ class Life:
                 await asyncio.wait([simtask])
                 self.in_call = True
                 regular = False
-            stamp = self.store.get(STOPKEY) if STOPKEY in self.store else None
+            stamp = self.store.raw().get(STOPKEY)
+            sim_exc = simtask.exception() if simtask.done() and not simtask.cancelled() else None
+            stop_raised = isinstance(sim_exc, self.store.exc) and str(sim_exc).startswith('storage fault')
+            if self.faults_now and not self.cleanup:
+                # a stop on a failing storage
+                at_end = stop_raised and self.done_render is not None
+                self.lines.append(f'persist stopf {t_before if regular else (self.done_time if at_end else self.world.now_us())}')
+                self.trace.append(('raised ' if stop_raised else 'done ') + (self.done_render if at_end else self.render()))
+                self.store.faults = dict(NO_FAULTS)
+                self.snap('stop', t_before=t_before, t_after=self.world.now_us(), regular=regular, t_begin=None,
+                          complete=not stop_raised, had_cleanup=False, stop_raised=stop_raised, on_faulty_storage=True)
+                return
             if self.cleanup:
                 # the beginning of the stop was seen by the clean-up hook
                 self.lines.append(f'persist stopend {self.world.now_us()} {int(complete)}')
@@ -944,6 +1050,35 @@ def _gen_scenario(rng, tier, family):
     if linked:
         for r in scn['restarts']:
             r['drop'] = []
+    # the storage fails: at the start (reads of entries / of the stop time, keys(), the purge), at run time
+    # (writes, and the pop that removes the stale entry), at the stop (saves, stop time)
+    if family == 'a' and scn['mode'] == 'ok' and not linked and rng.random() < 0.3:
+        scn['slow'], scn['stop'] = None, {'kind': 'full'}
+        scn['fault_exc'] = rng.choice(['OSError', 'RuntimeError', 'StorageFault'])
+
+        def read_fault():
+            f = {'r': sorted(rng.sample(range(nb), rng.randint(1, nb)))}
+            r = rng.random()
+            if r < 0.08:
+                f['r'].append('stamp')
+            elif r < 0.14:
+                f['i'] = True
+            elif r < 0.25 and not any(b['kind'] == 'input' and b['initdef'] is None for b in scn['blocks']):
+                f['d'] = True       # (not when the initialisation can fail: the stop of a failed start on a storage
+                                    #  whose pop fails is outside the model)
+            return f
+        if rng.random() < 0.3:
+            scn['start_fault'] = read_fault()
+        if rng.random() < 0.8 and len(ops) >= 2:
+            a = rng.randrange(len(ops))
+            ops.insert(a, ['fault', {'w': True, 'd': rng.random() < 0.2}])
+            if rng.random() < 0.8:
+                ops.insert(rng.randrange(a + 1, len(ops) + 1), ['fault', {}])
+        if rng.random() < 0.3:
+            scn['stop_fault'] = rng.choice([{'w': True}, {'w': True}, {'w': True, 'd': True}, {'d': True}])
+        for r in scn['restarts']:
+            if rng.random() < 0.4:
+                r['start_fault'] = read_fault()
     # initial storage: stale entries, unused keys, reserved keys, stamp
     store0 = []
     if linked and rng.random() < 0.8:
@@ -1043,8 +1178,28 @@ def _condnone_seed(src_first):
                           'sync': [True, True]}]}
 
 
+def _storage_outage_seed():
+    """a persistent Counter and an InputExp on a storage that refuses writes for a while (the demo of the missed
+    change: every event still returns the handler's result, the simulation goes on, the next save after the outage
+    stores the current state)"""
+    t0 = WALL0
+    blocks = [{'kind': 'counter', 'name': 'b0', 'mod': 10, 'initdef': 23, 'p': True, 's': True, 'exp': None},
+              {'kind': 'inputexp', 'name': 'b1', 'dur': 64 * TICK, 'expired': 'EXP', 'initdef': None, 'p': True, 's': True,
+               'exp': None}]
+    return {'family': 'a', 'blocks': blocks, 't0': t0, 'mode': 'ok', 'failer_first': False,
+            'ops': [['adv', t0 + SEC], ['ev', 0, 'inc', None], ['fault', {'w': True}], ['ev', 0, 'inc', [5]],
+                    ['ev', 1, 'put', ['v']], ['ev', 0, 'put', None], ['adv', t0 + 3 * SEC], ['ev', 0, 'dec', None],
+                    ['fault', {}], ['ev', 0, 'inc', [7]]],
+            't_stop': t0 + 4 * SEC, 'store0': [[STOPKEY, ['ts', t0 - SEC]], ["<Counter 'b0'>", ['val', -4]]],
+            'slow': None, 'stop': {'kind': 'full'}, 'fault_exc': 'OSError',
+            'restarts': [{'snap': 5, 'down': 'short', 'exp': ['none', 'none'], 'drop': [], 'nopersist': [], 'sync': [True, True]},
+                         {'snap': -1, 'down': 'short', 'exp': ['none', 'none'], 'drop': [], 'nopersist': [],
+                          'sync': [True, True], 'start_fault': {'r': [0]}}]}
+
+
 def scenarios(rng, tier):
     yield _defect8_seed()
+    yield _storage_outage_seed()
     yield _condnone_seed(True)
     yield _condnone_seed(False)
     yield _cancelled_shutdown_seed(True)
@@ -1156,8 +1311,10 @@ def _run_impl(scn, world):
         store[k] = dec_entry(e)
     store0 = copy.deepcopy(dict(store))
     first = Life(world, scn['blocks'], store, family, lines, trace)
+    store.exc = FAULT_EXC[scn.get('fault_exc', 'OSError')]
     first.run(scn['t0'], scn['mode'], scn['failer_first'], scn['ops'], scn['t_stop'], configs,
-              slow=scn.get('slow'), stop=scn.get('stop'))
+              slow=scn.get('slow'), stop=scn.get('stop'), start_fault=scn.get('start_fault'),
+              stop_fault=scn.get('stop_fault'))
     # reference: a fresh start without storage content (what "normal initialisation" gives)
     restarts = []
     for r in scn['restarts']:
@@ -1181,8 +1338,12 @@ def _run_impl(scn, world):
             st2[k] = v
         life = Life(world, specs2, st2, family, lines, trace)
         horizon = now2 + (260 * TICK if family == 'a' else 3 * SEC)
+        st2.exc = FAULT_EXC[scn.get('fault_exc', 'OSError')]
+        sf = r.get('start_fault')
+        if sf and r['drop']:
+            sf = None               # (block indices of the fault refer to the undropped list)
         life.run(now2, 'ok', False, [['adv', now2 + (100 * TICK if family == 'a' else SEC)]], horizon, configs,
-                 slow=scn.get('slow'))
+                 slow=scn.get('slow'), start_fault=sf)
         ref = Life(world, [dict(s, p=False) for s in specs2], Storage(), family, [], [])
         ref.run(now2, 'ok', False, [], now2, configs)
         restarts.append({'r': r, 'snap_index': r['snap'] % len(first.snaps), 'down': down, 'now2': now2, 'exps': exps,
@@ -1194,6 +1355,18 @@ def _run_impl(scn, world):
     tags += sorted({f'kind={b["kind"]}' for b in scn['blocks']})
     if any(b.get('link') for b in scn['blocks']):
         tags.append('links')
+    if 'fault_exc' in scn:
+        tags.append('storage-faults')
+    for sn in first.snaps:
+        if sn['label'] in ('ev', 'fire') and sn.get('faults'):
+            tags.append('event-on-failing-storage')
+            if sn.get('res') == 'err StorageError':
+                tags.append('event-raised-storage-error')
+            break
+    if first.snaps and first.snaps[-1].get('stop_raised'):
+        tags.append('stop-raised-storage-error (clean-up skipped)')
+    if first.snaps and first.snaps[0].get('start_error'):
+        tags.append('start-failed-on-storage-error')
     tags.append('cleanup=' + ('none' if scn.get('slow') is None else scn.get('stop', {}).get('kind', 'full')))
     if first.snaps and first.snaps[-1]['label'] == 'stop' and not first.snaps[-1].get('complete', True):
         tags.append('stop-interrupted')
@@ -1260,7 +1433,7 @@ def oracle(scn, res):
         if not _same(st, expect):
             viol('no_write_on_failed_start', f"mode {scn['mode']}: storage {st!r}, expected {expect!r}")
     # ---- reserved kept / unused removed, in every snapshot of a circuit that got as far as the check
-    if scn['mode'] != 'aborted':
+    if scn['mode'] != 'aborted' and not first[0].get('start_error'):      # (`_check_persistent_data` completed)
         for i, s in enumerate(first):
             for k, v in store0.items():
                 if k.startswith('edzed-') and k != STOPKEY and not _same(s['store'].get(k, KeyError), v):
@@ -1285,8 +1458,29 @@ def oracle(scn, res):
         if s['label'] in ('ev', 'fire'):
             i = s['blk']
             spec = specs[i]
+            flt = s.get('faults') or {}
+            if flt and (s['res'].startswith('ret') or s['res'] == 'err StorageError'):
+                # the storage fails while the block handles an event
+                if first[n - 1].get('ready') and not s.get('ready'):
+                    viol('simulation_not_aborted_by_storage_fault',
+                         f"{s['label']} #{n} ({s.get('op')}) on a failing storage ({flt}): the simulation was stopped",
+                         faults=sorted(flt))
+                if s['res'] == 'err StorageError' and not flt.get('d'):
+                    # (when the pop that removes the stale entry fails too, the code lets that exception out)
+                    viol('event_unaffected_by_storage_fault',
+                         f"{s['label']} #{n} ({s.get('op')}) on a storage whose writes fail ({flt}): event() raised the "
+                         f"storage's exception instead of returning the handler's result", faults=sorted(flt))
             if s['res'] == 'err Abort' and i not in frozen:
                 frozen[i] = first[n - 1]['store'].get(keys[i], KeyError)
+            elif (s['res'].startswith('ret') and flt.get('w') and spec['p'] and spec['s'] and i not in frozen
+                  and s['obs'][i]['persistent']):
+                # the write failed and was suppressed: no stale entry may stay
+                if keys[i] in s['store']:
+                    viol('stale_entry_removed_on_write_fault',
+                         f"after {s['label']} #{n} ({s.get('op')}) with failing writes: {keys[i]} still holds "
+                         f"{s['store'][keys[i]]!r}, the block's state is {_expected_entry(spec, s['obs'][i])!r}")
+            elif s['res'] == 'err StorageError':
+                pass
             elif s['res'].startswith('ret') and spec['p'] and spec['s'] and i not in frozen and s['obs'][i]['persistent']:
                 o = s['obs'][i]
                 saves.setdefault(i, []).append((n, o))
@@ -1313,7 +1507,14 @@ def oracle(scn, res):
                     if not _same(want, got):
                         viol('stop_saves_all_with_timestamp',
                              f'the clean-up starts: {keys[i]} holds {got!r}, block state {want!r}', at='cleanup-start')
-        if s['label'] == 'stop' and first[0]['label'] == 'init':
+        if s['label'] == 'stop' and first[0]['label'] == 'init' and s.get('on_faulty_storage'):
+            # a stop on a failing storage is compared with the model only; remember what did get saved
+            prev = first[n - 1]['obs']
+            for i, spec in enumerate(specs):
+                if spec['p'] and i not in frozen and prev[i]['persistent'] and keys[i] in s['store'] and \
+                        _same(_expected_entry(spec, prev[i]), _entry_view(spec, s['store'][keys[i]])):
+                    saves.setdefault(i, []).append((n, prev[i]))
+        elif s['label'] == 'stop' and first[0]['label'] == 'init':
             stamp = s['store'].get(STOPKEY)
             lo, hi = s['t_before'], s['t_after']
             how = 'interrupted' if not s.get('complete', True) else 'complete'
@@ -1394,6 +1595,12 @@ def oracle(scn, res):
             o2 = o2s[j]
             key = keys[i]
             if not spec2['p'] or key not in rs['store_in']:
+                continue
+            sf = rs['r'].get('start_fault') if not rs['r'].get('drop') else None
+            if sf and i in sf.get('r', []):
+                # the entry could not be read: the error is suppressed, the block is initialised normally
+                if o2.get('restored'):
+                    viol('startup_restores_every_valid_entry', f'restart: {key} restored although its entry is unreadable')
                 continue
             entry = _entry_view(spec2, rs['store_in'][key])
             # the state the entry stands for: the first circuit's block when the entry was written
